@@ -8,12 +8,13 @@ import ClaripyProofs.Lemmas.VSA.AndXor
 import ClaripyProofs.Lemmas.VSA.ConcatSound
 import ClaripyProofs.Lemmas.VSA.AshrSound
 import ClaripyProofs.Lemmas.VSA.MeetFinal
+import ClaripyProofs.Lemmas.VSA.MulTop
 /-!
 The structural soundness theorem of `convBV`/`convB` with the *proved* interval operations discharged:
 `add, sub, neg, not, and, or, xor, concat, zero_extend, sign_extend, extract, udiv, shl, lshr, ashr, union (If), ULT/ULE/UGT/UGE,
 SLT/SLE/SGT/SGE`.
 The induction also carries constructor-normal form (`Nrm`), which the signed orderings need.  What is left as a hypothesis
-(`OpsRest`) is consulted only at nodes that use one of the remaining operations (`mul`, `urem`), so ASTs inside the proved fragment get
+(`OpsRest`) is consulted only at nodes that use one of the remaining operation (`urem`), so ASTs inside the proved fragment get
 an unconditional theorem.  The ASTs considered here have a defined value at every node (no division by zero anywhere,
 also not in a branch that is not taken): the proved operations are closed on *non-empty* intervals, and non-emptiness of
 the operands is obtained from the concrete values of the sub-expressions.
@@ -21,7 +22,7 @@ the operands is obtained from the concrete values of the sub-expressions.
 namespace Claripy.VSA
 
 def restBin : BinOp → Bool
-  | .mul | .urem => true
+  | .urem => true
   | _ => false
 
 def signedCmp : CmpOp → Bool
@@ -62,13 +63,14 @@ def usesRestB : BExp → Bool
 end
 
 mutual
-/-- the abstract operands of every `==` / `!=` node are aligned (their upper bounds are members): the guard under which
-the meet, hence `eq`, is sound (`meet_sound`); evaluated along the same order stream as `convBV` -/
+/-- the abstract operands of every `==` / `!=` / `*` node are aligned (their upper bounds are members): the guard under
+which the meet, hence `eq` and `mul`, is sound (`meet_sound`, `mul_sound`); evaluated along the same order stream as `convBV` -/
 def alBV (anno : Nat → SI) : BV → Orders → Prop
   | .var _ _, _ => True
   | .free _ _, _ => True
   | .const _ _, _ => True
-  | .bin _ a b, o => alBV anno a o ∧ ∀ p1, convBV anno a o = .ok p1 → alBV anno b p1.2
+  | .bin op a b, o => alBV anno a o ∧ ∀ p1, convBV anno a o = .ok p1 →
+      (alBV anno b p1.2 ∧ (op = .mul → ∀ p2, convBV anno b p1.2 = .ok p2 → p1.1.si.Aligned ∧ p2.1.si.Aligned))
   | .neg a, o => alBV anno a o
   | .not a, o => alBV anno a o
   | .zext _ a, o => alBV anno a o
@@ -89,12 +91,12 @@ def alB (anno : Nat → SI) : BExp → Orders → Prop
 end
 
 mutual
-/-- does the AST contain `==` or `!=`? -/
+/-- does the AST contain `==`, `!=` or `*` (the operations that are sound on aligned operands only)? -/
 def usesEqBV : BV → Bool
   | .var _ _ => false
   | .free _ _ => false
   | .const _ _ => false
-  | .bin _ a b => usesEqBV a || usesEqBV b
+  | .bin op a b => decide (op = .mul) || usesEqBV a || usesEqBV b
   | .neg a => usesEqBV a
   | .not a => usesEqBV a
   | .zext _ a => usesEqBV a
@@ -112,14 +114,14 @@ def usesEqB : BExp → Bool
 end
 
 mutual
-/-- without `==` / `!=` the alignment guard is void -/
+/-- without `==` / `!=` / `*` the alignment guard is void -/
 theorem alBV_of_noEq (anno : Nat → SI) : ∀ (e : BV) (o : Orders), usesEqBV e = false → alBV anno e o
   | .var _ _, _, _ => trivial
   | .free _ _, _, _ => trivial
   | .const _ _, _, _ => trivial
-  | .bin _ a b, o, h => by
-    simp only [usesEqBV, Bool.or_eq_false_iff] at h
-    exact ⟨alBV_of_noEq anno a o h.1, fun p1 _ => alBV_of_noEq anno b p1.2 h.2⟩
+  | .bin op a b, o, h => by
+    simp only [usesEqBV, Bool.or_eq_false_iff, decide_eq_false_iff_not] at h
+    exact ⟨alBV_of_noEq anno a o h.1.2, fun p1 _ => ⟨alBV_of_noEq anno b p1.2 h.2, fun he => absurd he h.1.1⟩⟩
   | .neg a, o, h => by simp only [usesEqBV] at h; exact alBV_of_noEq anno a o h
   | .not a, o, h => by simp only [usesEqBV] at h; exact alBV_of_noEq anno a o h
   | .zext _ a, o, h => by simp only [usesEqBV] at h; exact alBV_of_noEq anno a o h
@@ -233,7 +235,7 @@ end
 
 theorem bin_proved (op : BinOp) (hop : restBin op = false) (a b r : SI) (o o' : Orders) (wa : a.WF) (wb : b.WF)
     (hbits : a.bits = b.bits) (hab : a.bottom = false) (hbb : b.bottom = false) (na : Nrm a) (nb : Nrm b)
-    (h : applyBin op a b o = .ok (r, o')) :
+    (hmul : op = .mul → a.Aligned ∧ b.Aligned) (h : applyBin op a b o = .ok (r, o')) :
     (r.WF ∧ r.bits = a.bits) ∧ ∀ x y v, a.mem x → b.mem y → concBin op a.bits x y = some v → r.mem v := by
   cases op <;> simp only [restBin] at hop <;> try (exact absurd hop (by decide))
   · -- add
@@ -259,6 +261,18 @@ theorem bin_proved (op : BinOp) (hop : restBin op = false) (a b r : SI) (o o' : 
     rw [Nat.mod_eq_of_lt hyl]
     have e : x + (2 ^ a.bits - y) = x + 2 ^ a.bits - y := by omega
     rw [e]; exact this
+  · -- mul
+    simp only [applyBin] at h
+    obtain ⟨r1, h1, h⟩ := bind_ok _ _ _ h
+    have := pure_ok _ _ h
+    cases this
+    obtain ⟨hA, hB⟩ := hmul rfl
+    obtain ⟨g1, g2⟩ := mul_sound a.bits a b r ⟨wa, rfl⟩ ⟨wb, hbits.symm⟩ hab hbb hA hB na nb h1
+    refine ⟨g1, ?_⟩
+    intro x y v hx hy hv
+    simp only [concBin, Option.some.injEq] at hv
+    subst hv
+    exact g2 x y hx hy
   · -- udiv
     cases o with
     | nil => simp only [applyBin] at h; cases h
@@ -411,6 +425,17 @@ theorem and_nrm (a b r : SI) (hw : r.WF) (h : a.bitwiseAnd b = .ok r) (hb : 0 < 
       obtain ⟨q, _, h⟩ := bind_ok _ _ _ h
       exact nrm_of_renorm q r (pure_ok _ _ h) hw
 
+theorem mul_nrm (a b r : SI) (hw : r.WF) (hb : 0 < a.bits) (h : a.mul b = .ok r) : Nrm r := by
+  rw [mul_eq] at h
+  split at h
+  · have := pure_ok _ _ h
+    rw [this]; exact nrm_new _ _ _ _ hb
+  · obtain ⟨p1, _, h⟩ := bind_ok _ _ _ h
+    obtain ⟨p2, _, h⟩ := bind_ok _ _ _ h
+    obtain ⟨all, _, h⟩ := bind_ok _ _ _ h
+    obtain ⟨u, _, h⟩ := bind_ok _ _ _ h
+    exact nrm_of_renorm u r (pure_ok _ _ h) hw
+
 theorem or_nrm (a b r : SI) (hw : r.WF) (h : a.bitwiseOr b = .ok r) : Nrm r := by
   unfold SI.bitwiseOr at h
   obtain ⟨us, _, h⟩ := bind_ok _ _ _ h
@@ -440,6 +465,11 @@ theorem bin_proved_nrm (op : BinOp) (hop : restBin op = false) (a b r : SI) (o o
     have := pure_ok _ _ h
     cases this
     exact sub_nrm a b wa
+  · simp only [applyBin] at h
+    obtain ⟨r1, h1, h⟩ := bind_ok _ _ _ h
+    have := pure_ok _ _ h
+    cases this
+    exact mul_nrm a b r hw wa.1 h1
   · cases o with
     | nil => simp only [applyBin] at h; cases h
     | cons od rest =>
@@ -531,7 +561,7 @@ theorem convBV_rest_good (anno : Nat → SI) (env : Nat → Nat)
     have Ra : usesRestBV a = true → OpsRest := fun hh => R (by simp [usesRestBV, hh])
     have Rb : usesRestBV b = true → OpsRest := fun hh => R (by simp [usesRestBV, hh])
     obtain ⟨⟨⟨wa, ba⟩, ma⟩, na⟩ := convBV_rest_good anno env hctx hnrm a o p1.1 p1.2 Ra hal.1 hdef.1 hwt.1 h1
-    obtain ⟨⟨⟨wb, bb⟩, mb⟩, nb⟩ := convBV_rest_good anno env hctx hnrm b p1.2 p2.1 p2.2 Rb (hal.2 p1 h1) hdef.2.1 hwt.2.1 h2
+    obtain ⟨⟨⟨wb, bb⟩, mb⟩, nb⟩ := convBV_rest_good anno env hctx hnrm b p1.2 p2.1 p2.2 Rb (hal.2 p1 h1).1 hdef.2.1 hwt.2.1 h2
     have hbits : p1.1.si.bits = p2.1.si.bits := by rw [ba, bb]; exact hwt.2.2
     obtain ⟨x0, hx0⟩ := defBV_some env a hdef.1
     obtain ⟨y0, hy0⟩ := defBV_some env b hdef.2.1
@@ -541,7 +571,8 @@ theorem convBV_rest_good (anno : Nat → SI) (env : Nat → Nat)
         ∀ x y v, p1.1.si.mem x → p2.1.si.mem y → concBin op p1.1.si.bits x y = some v → p3.1.mem v := by
       by_cases hr : restBin op = true
       · exact (R (by simp [usesRestBV, hr])).bin op _ _ _ _ _ hr wa wb hbits h3
-      · have k1 := bin_proved op (by simpa using hr) _ _ _ _ _ wa wb hbits hab hbb na nb h3
+      · have k1 := bin_proved op (by simpa using hr) _ _ _ _ _ wa wb hbits hab hbb na nb
+          (fun he => (hal.2 p1 h1).2 he p2 h2) h3
         exact ⟨⟨k1.1, bin_proved_nrm op (by simpa using hr) _ _ _ _ _ wa hbits k1.1.1 h3⟩, k1.2⟩
     obtain ⟨⟨⟨wr, br⟩, nr⟩, mr⟩ := key
     refine ⟨?_, nr⟩
